@@ -191,6 +191,20 @@ CLAIMED = {
             'partial: the parser delivering the component lists in source order and the hoisting of in-place types are covered by the '
             'correspondence only; the Rust token of constrained INTEGER components comes from a fixed table (C06); one known finding',
             'Coq proof (list induction over the component lists) + differential correspondence on syn projections'),
+    'C09': ('proof',
+            'partial. Proved: one COMPONENTS OF linking step yields exactly the expansion when the notation comes last in the component '
+            'list and the referenced SEQUENCE types are already expanded; the selection type picks the named alternative. The full '
+            'statement (the linking pass equals the expansion for every definition) is false of the code and refuted inside Coq with '
+            'three witnesses (copies appended instead of placed, chains depending on name order, SET types ignored = known findings). '
+            'Hand model of the pass (descending name order over the sorted map, each definition against the current state of the others) '
+            'tied by correspondence on the field names of every type of generated COMPONENTS OF chains; every disagreement with the '
+            'expansion is classified into a known class. Search for the other notations: (sugared, hand-expanded) module pairs for '
+            'value-reference chains and named numbers in constraints, parameterized types, selection types, fixed-type class fields, with '
+            'names sorting before and after and shuffled definition order, compared item by item',
+            '§6 C09',
+            'partial: only the single step is proved; parameter substitution, constraint references and class fields are covered by the '
+            'differential search only; three known findings',
+            'Coq proof (single step) + refutation witnesses + differential correspondence + sugared-vs-expanded differential search'),
     'C08': ('proof',
             'partial. Proved for every input: the nestable-comment scanner never slices out of range; the error-excerpt arithmetic '
             '(until_next_unindented, contextualize) stays in range and on character boundaries for every report the position '
